@@ -570,7 +570,7 @@ fn scenarios(thorough: bool) -> Vec<(Scenario, Vec<usize>)> {
                 add(1, 1, bch, iz, 1, script, Inject::None, vec![UNBOUNDED], 0);
                 add(1, 2, bch, iz, 1, script, Inject::None, vec![if !thorough && bch == 1 && iz { 4 } else { UNBOUNDED }], 0);
                 if script < 2 || thorough {
-                    let b = if thorough && script < 2 { 4 } else if thorough || script == 0 { 3 } else { 2 };
+                    let b = if thorough && script == 0 { 4 } else if thorough || script == 0 { 3 } else { 2 };
                     // thorough: two workers, one required error, script 0: ALL schedules
                     let b1 = if thorough && script == 0 { UNBOUNDED } else { b };
                     add(2, 1, bch, iz, 1, script, Inject::None, vec![b1], 0);
@@ -592,8 +592,10 @@ fn scenarios(thorough: bool) -> Vec<(Scenario, Vec<usize>)> {
         add(2, 1, 0, true, 2, script, Inject::None, if thorough { vec![3] } else { vec![2] }, 0);
         if thorough {
             add(2, 2, 1, false, 2, script, Inject::None, vec![2], 0);
-            add(3, 1, 0, true, 2, script, Inject::None, vec![1], 0);
-            add(2, 2, 0, true, 1, script, Inject::None, vec![3], 1);
+            if script == 0 {
+                add(3, 1, 0, true, 2, script, Inject::None, vec![1], 0);
+                add(2, 2, 0, true, 1, script, Inject::None, vec![3], 1);
+            }
         }
     }
     add(3, 1, 0, true, 2, 0, Inject::None, if thorough { vec![2] } else { vec![1] }, 0);
@@ -743,7 +745,7 @@ pub fn run(run: &Run) -> i32 {
         graph = (res.decisions.len().max(1) as u64, res.decisions.len().max(1) as u64, 1);
     } else {
         let list = scenarios(run.thorough());
-        let budget = if run.thorough() { 900.0 } else { 40.0 };
+        let budget = if run.thorough() { 600.0 } else { 40.0 };
         // only the highest bound of each scenario is explored: a bound-b exploration contains
         // every schedule with fewer preemptions (reported per bound through the cost histogram)
         let mut jobs = Vec::new();
